@@ -35,7 +35,10 @@ RULE = ("model tie: (1) utils.copypath run on small real filesystems built in a 
         "ancestors of assigned paths; the second rebuild changes nothing at all; every mutating event targets the destination.  "
         "Aimed streams judged by the same rules: v1 with a file of exactly k pieces followed by a file whose wholly different same-size "
         "decoy is enumerated first or is its ONLY candidate; v1 with a piece spanning two files where the later file's name exists nowhere "
-        "in the search directories and the earlier file has such a decoy.  HOSTILE metafiles written by the reference encoder (v1 path "
+        "in the search directories and the earlier file has such a decoy; directory torrents (v2, hybrid, v1; creators and reference "
+        "encoder; single and batch; also a share of every random payload pool) with a top-level FILE named like the torrent beside other "
+        "files and directories -- the path dest/name itself is assigned by no metafile then, only dest/name/name is -- or with a SUB-"
+        "DIRECTORY named like the torrent.  HOSTILE metafiles written by the reference encoder (v1 path "
         "elements; v2 and hybrid DIRECTORY keys, below a plain directory or not, first or later sibling): '..' as separate elements, "
         "'../..' inside one element, or an absolute element, leading from dest/<name> into a search directory (its top or a sub-"
         "directory), onto the metafile itself or beside it; a candidate with the recorded name, length and digest is present and a "
@@ -392,7 +395,7 @@ def evaluate_escape(ctx, case, res):
 def e2e(ctx):
     quick = ctx.tier == "quick"
     plan = ["c14"] * (70 if quick else 1100) + ["boundary"] * (6 if quick else 80) + ["boundary-only"] * (6 if quick else 80) + \
-        ["absent"] * (8 if quick else 100) + \
+        ["absent"] * (8 if quick else 100) + ["namesake"] * (10 if quick else 120) + \
         ["escape"] * (30 if quick else 500)
     n = len(plan)
     seeds = [ctx.rng.getrandbits(48) for _ in range(n)]
